@@ -11,7 +11,7 @@ L3  the property itself on the implementation: after any history, fit (and path)
     no fitted attribute is loaded during a fit before that same fit stored it; get_params/set_params/clone round-trip.
 Bit-wise comparison is deliberate here: the property is exact reproducibility, not numerical closeness.
 """
-import sys, os, io, copy, json, types, functools, contextlib, inspect
+import sys, os, io, copy, json, types, functools, contextlib, inspect, signal
 import numpy as np
 from core import Check
 import impl
@@ -108,14 +108,17 @@ for _n, _c in impl.ALL_ESTIMATORS.items():
 
 # ------------------------------------------------------------------------------------------ configurations and data
 def kern1(X):
+    X = np.asarray(X, dtype=float)
     return np.exp(-0.1 * ((X[:, None, :] - X[None, :, :]) ** 2).sum(-1))
 
 
 def kern2(X, Y):
+    X, Y = np.asarray(X, dtype=float), np.asarray(Y, dtype=float)
     return (X @ Y.T + 1.0) ** 2
 
 
 def dist1(X):
+    X = np.asarray(X, dtype=float)
     return np.abs(X[:, None, :] - X[None, :, :]).sum(-1)
 
 
@@ -246,6 +249,39 @@ class Outcome:
     pass
 
 
+class CallTimeout(Exception):
+    """A call of the implementation did not return (e.g. a path started from an alpha left at 0 by an earlier call)."""
+
+    def __str__(self):
+        return "call did not return within the time limit"
+
+
+CALL_LIMIT_S = 20.0      # ordinary calls on this data take milliseconds
+TIMEOUTS = [0]
+
+
+class CaseAbort(Exception):
+    """The case cannot go on (a call did not return); the failure has been recorded."""
+
+
+def call_limit():
+    return CALL_LIMIT_S if TIMEOUTS[0] == 0 else (5.0 if TIMEOUTS[0] < 4 else 1.0)
+
+
+def aborting(fn):
+    @functools.wraps(fn)
+    def run(chk, i, rng):
+        try:
+            fn(chk, i, rng)
+        except CaseAbort:
+            chk.count(None)
+    return run
+
+
+def _on_alarm(signum, frame):
+    raise CallTimeout()
+
+
 def invoke(chk, obj, m, data, replay, kwargs=None, expect_exc=False, X=None, y="auto"):
     """Call obj.m(X, y, **kwargs) with instrumentation; check the caller's arrays and the hyper-parameters around it."""
     o = Outcome()
@@ -258,13 +294,23 @@ def invoke(chk, obj, m, data, replay, kwargs=None, expect_exc=False, X=None, y="
     TR.on = True
     o.exc = None
     o.result = None
+    old = signal.signal(signal.SIGALRM, _on_alarm)
+    limit = call_limit()
+    signal.setitimer(signal.ITIMER_REAL, limit)
     try:
         with contextlib.redirect_stdout(io.StringIO()):
             o.result = getattr(obj, m)(*args, **(kwargs or {}))
     except Exception as e:      # noqa
         o.exc = e
     finally:
+        signal.setitimer(signal.ITIMER_REAL, 0)
+        signal.signal(signal.SIGALRM, old)
         TR.on = False
+    if isinstance(o.exc, CallTimeout):
+        TIMEOUTS[0] += 1
+        chk.fail(f"{m}:no-return", f"{type(obj).__name__}.{m} did not return within {limit:.0f} s (hyper-parameters now: "
+                 f"{ {k: repr(v)[:30] for k, v in obj.get_params(deep=False).items() if k in ('alpha', 'max_iter', 'batch_size')} })", replay, layer="L3")
+        raise CaseAbort()
     o.trace = TR.log
     TR.log = []
     name = type(obj).__name__
@@ -832,8 +878,8 @@ def stream_malformed(chk, i, rng):
 
 
 # ------------------------------------------------------------------------------------------ main
-STREAMS = {"table": (stream_table, 19, 19), "trace": (stream_trace, 54, 540), "history": (stream_history, 180, 2700),
-           "mlcl": (stream_mlcl, 34, 510), "roundtrip": (stream_roundtrip, 54, 540), "malformed": (stream_malformed, 64, 640)}
+STREAMS = {"table": (stream_table, 19, 19), "trace": (aborting(stream_trace), 54, 540), "history": (aborting(stream_history), 180, 2700),
+           "mlcl": (aborting(stream_mlcl), 34, 510), "roundtrip": (stream_roundtrip, 54, 540), "malformed": (aborting(stream_malformed), 64, 640)}
 
 
 def main():
